@@ -45,7 +45,7 @@ PROBES = [
     "abort_as_KeyboardInterrupt", "recompute_after_other_engine_used_same_objects",
     "fits_budget_exactly", "mixed_fresh_and_used_labels", "nodes_called_with_same_list_object",
     "layers_ge_4", "all_labels_at_one_position", "list_edited_in_place_and_handed_over_again",
-    "subset_of_used_labels", "clones_of_laid_out_labels",
+    "subset_of_used_labels", "clones_of_laid_out_labels", "readonly_inspection",
 ]
 
 RULE = {
@@ -315,6 +315,8 @@ def gen_plan(rng, tier):
             ops.append(["stack_compute", e, int(math.exp(rng.uniform(math.log(5), math.log(80))))])
         elif r < 0.88 and enabled["stale"]:
             ops.append(["stale", rng.randrange(nsets), rng.choice(["pos", "layer", "stub", "all"]), rng.randrange(1 << 30)])
+        elif r < 0.90 and rng.random() < 0.5:
+            ops.append(["inspect", e, rng.randrange(1 << 30)])
         elif r < 0.94:
             s = rng.randrange(nsets)
             ops.append(["distribute", s, gen_dist_opts(rng, sets[s]), rng.choice(["fresh", "fresh", "existing"])])
@@ -895,6 +897,38 @@ def _run(plan):
                     checkpoints.append({"step": step, "opts": dict(eng["opts"]), "set": s,
                                         "labels": eng["spec"], "observed": {"raise": outcome[6:]},
                                         "history": history, "fault_config": eng.get("after_fault", False)})
+        elif kind == "inspect":
+            # read-only use of the public API between layouts: metrics, paths, clones,
+            # getters.  Nothing here may change a result (the quiescence re-check watches)
+            eng = engines.get(op[1])
+            if eng is None or not eng.get("labels"):
+                outcome = "skipped"
+            else:
+                from labella import metrics as M
+
+                f = eng["force"]
+                bump("probe:readonly_inspection")
+                try:
+                    lay = f.getLayers()
+                    f.nodes()
+                    dict(f.options)
+                    for fn in ("displacement", "pathLength", "overlapSpace"):
+                        if lay:
+                            getattr(M, fn)(lay)
+                    if lay:
+                        M.overflowSpace(lay, f.options.get("minPos"), f.options.get("maxPos"))
+                        M.overlapCount(lay, 2)
+                    for n in eng["labels"]:
+                        n.getPathToRoot()
+                        n.getPathFromRoot()
+                        n.getRoot()
+                        n.getLayerIndex()
+                        n.isStub()
+                        n.displacement()
+                        n.clone()
+                        repr(n)
+                except Exception as ex:
+                    outcome = "raise:" + type(ex).__name__
         elif kind == "stale":
             s, what, seed = op[1], op[2], op[3]
             bump("fault:stale:configured")
